@@ -79,7 +79,9 @@ fn inline_file(file: &Path, _root: &Path, root_like: bool, files: &mut Vec<PathB
     if !t.is_empty() && !t.starts_with("#[") {
       pending_cfg_test = false;
     }
-    out.push_str(&redirect(line));
+    // pub(crate) -> pub: lets harness sources use inner_subscribe the way `defer` does;
+    // visibility does not change behaviour
+    out.push_str(&redirect(line).replace("pub(crate)", "pub"));
     out.push('\n');
   }
   out
